@@ -332,12 +332,13 @@ RejectQueuedBinds(s, e, q) ==
 DropMux(s, e) ==
   IF ~s.mux[e] THEN {}
   ELSE
-    LET s0 == [s EXCEPT !.mux[e] = FALSE, !.calls[e] = <<>>, !.flushTo[e] = s.enq[e]]
-        s1 == IF s.dropsClosed[e] THEN s0 ELSE [s0 EXCEPT !.drops[e] = Append(@, [id |-> 0, h |-> 0])]
-        (* streams still sitting in a oneshot of a cancelled open call are dropped with it *)
+    LET (* pending calls borrow the multiplexor, so they are cancelled first: a stream still sitting in
+           the oneshot of an open call is dropped with the call, before the notification 0 *)
         got == {c \in DOMAIN s.calls[e] : s.calls[e][c].k = "open" /\ s.calls[e][c].resp = "some"}
         gotSeq == SetToSeq({s.calls[e][c].h : c \in got})
-        s2 == DropHandles(DropHandles([s1 EXCEPT !.acceptq[e] = <<>>], e, s.acceptq[e]), e, gotSeq)
+        s0 == DropHandles([s EXCEPT !.mux[e] = FALSE, !.calls[e] = <<>>, !.flushTo[e] = s.enq[e]], e, gotSeq)
+        s1 == IF s.dropsClosed[e] THEN s0 ELSE [s0 EXCEPT !.drops[e] = Append(@, [id |-> 0, h |-> 0])]
+        s2 == DropHandles([s1 EXCEPT !.acceptq[e] = <<>>], e, s.acceptq[e])
         s3 == RejectQueuedBinds([s2 EXCEPT !.bindq[e] = <<>>, !.dgq[e] = <<>>], e, s.bindq[e])
     IN {Obs(s3, [NoObs EXCEPT !.res = "ok"])}
 
@@ -419,7 +420,8 @@ WakeC(e, c) == [k |-> "c", e |-> e, x |-> c]
 CloseLocal(s, e, id, sl, inhibit, cause) ==
   CASE sl.k = "Est" ->
          LET x  == s.hnd[e][sl.h]
-             s1 == [s EXCEPT !.hnd[e][sl.h].closedW = TRUE,
+             s1 == [s EXCEPT !.hnd[e][sl.h].closedW = TRUE, !.hnd[e][sl.h].wreg = FALSE,
+                             !.hnd[e][sl.h].rreg = IF sl.rd THEN FALSE ELSE x.rreg,
                              !.hnd[e][sl.h].eof = IF x.eof = "none" /\ sl.rd THEN cause ELSE x.eof]
              s2 == IF ~x.closedW /\ ~inhibit THEN Out(s1, e, MReset(id, x.conn)) ELSE s1
          IN Wake(s2, (IF x.wreg THEN {WakeW(e, sl.h)} ELSE {}) \cup (IF x.rreg /\ sl.rd THEN {WakeR(e, sl.h)} ELSE {}))
@@ -446,7 +448,7 @@ BeginWd(s0, e, drain, res) ==
               [] OTHER -> sa
       hs == {s.slot[e][id].h : id \in {i \in DOMAIN s.slot[e] : s.slot[e][i].k = "Est"}}
       s1 == [s EXCEPT !.hnd[e] = [h \in DOMAIN s.hnd[e] |->
-                         IF h \in hs THEN [s.hnd[e][h] EXCEPT !.closedW = TRUE] ELSE s.hnd[e][h]],
+                         IF h \in hs THEN [s.hnd[e][h] EXCEPT !.closedW = TRUE, !.wreg = FALSE] ELSE s.hnd[e][h]],
                       !.task[e] = [ph |-> "wd1", drain |-> drain, res |-> res]]
   IN Wake(s1, {WakeW(e, h) : h \in {x \in hs : s.hnd[e][x].wreg}})
 
@@ -514,7 +516,7 @@ ProcFinish(s0, e, m) ==
     [] sl.k = "Est" ->
          LET x == s.hnd[e][sl.h] IN
          IF sl.rd
-         THEN Wake([SetSlot(s, e, m.id, SEst(sl.h, FALSE)) EXCEPT
+         THEN Wake([SetSlot(s, e, m.id, SEst(sl.h, FALSE)) EXCEPT !.hnd[e][sl.h].rreg = FALSE,
                        !.hnd[e][sl.h].eof = IF x.eof = "none" THEN "fin" ELSE x.eof],
                    IF x.rreg THEN {WakeR(e, sl.h)} ELSE {})
          ELSE s
@@ -563,7 +565,9 @@ Process(s, e, m, inWd) ==
     [] m.op = "bind"    -> ProcBind(s, e, m, inWd)
     [] m.op = "dgram"   -> ProcDgram(s, e, m, inWd)
     [] m.op \in {"ping", "pong"} -> s
-    [] m.op = "close"   -> IF inWd THEN s ELSE BeginWd(s, e, FALSE, "ok")
+    (* nothing follows a Close frame (RFC 6455): the source of a real WebSocket ends after it *)
+    [] m.op = "close"   -> IF inWd THEN [s EXCEPT !.src[e] = "ended"]
+                           ELSE BeginWd([s EXCEPT !.src[e] = "ended"], e, FALSE, "ok")
     [] m.op = "junk"    -> IF inWd THEN s ELSE BeginWd(s, e, FALSE, "invalid")
     [] OTHER -> s
 
@@ -631,8 +635,11 @@ CloseAll(s, e, ids) ==
 
 Finalize(s, e) ==
   LET s1 == CloseAll(s, e, DOMAIN s.slot[e])
+      (* the task and with it the WebSocket object are destroyed: the transport is closed, so the
+         peer's source ends after whatever is still in flight *)
       s2 == [s1 EXCEPT !.slot[e] = <<>>, !.drops[e] = <<>>, !.dropsClosed[e] = TRUE,
-                       !.task[e].ph = "done", !.rxblk[e] = [k |-> "none", h |-> 0, m |-> NoMsg]]
+                       !.task[e].ph = "done", !.rxblk[e] = [k |-> "none", h |-> 0, m |-> NoMsg],
+                       !.wire[e] = Append(@, MkMsg("eos"))]
       (* the Task object is destroyed: every receiver waiting on one of its channels is woken *)
       s3 == Wake(s2, {[k |-> "acc", e |-> e, x |-> 0], [k |-> "dg", e |-> e, x |-> 0], [k |-> "nb", e |-> e, x |-> 0]})
   IN [s3 EXCEPT !.obs.res = s.task[e].res]
@@ -666,10 +673,12 @@ WdRun(s, e, gr, gs) ==
          ELSE IF gs = 0 THEN s
          ELSE WdRun(SendOne(s, e), e, gr, 0)
     [] t.ph = "close" ->
-         WdRun([CloseSink(s, e) EXCEPT !.task[e].ph = "drain"], e, gr, gs)
-    [] t.ph = "drain" ->
+         (* the peer is waited for only after a graceful end and if our own Close could be sent *)
+         WdRun([CloseSink(s, e) EXCEPT !.task[e].ph = IF t.res = "ok" /\ s.sink[e] # "cut" THEN "drain" ELSE "drain0"],
+               e, gr, gs)
+    [] t.ph \in {"drain", "drain0"} ->
          IF s.src[e] = "ended" THEN Finalize(s, e)
-         ELSE IF gr = 0 \/ s.wire[Peer(e)] = <<>> THEN s
+         ELSE IF gr = 0 \/ s.wire[Peer(e)] = <<>> THEN (IF t.ph = "drain0" THEN Finalize(s, e) ELSE s)
          ELSE LET m  == Head(s.wire[Peer(e)])
                   s1 == [s EXCEPT !.wire[Peer(e)] = Tail(@), !.obs.rcv = m]
               IN IF m.op \in {"eos", "err"} THEN Finalize([s1 EXCEPT !.src[e] = "ended"], e)
